@@ -50,6 +50,10 @@ pub struct Sched {
     pub decisions: Vec<usize>,
     pub switches: u64,
     tick: u64,
+    /// A stalled actor (slow node): parked at a hot gate and not picked again for this many
+    /// decisions, so that the others run a long stretch inside its window.
+    stalled: Option<(String, u32)>,
+    pub stalls: u64,
 }
 
 impl Sched {
@@ -64,6 +68,9 @@ impl Sched {
             decisions: vec![],
             switches: 0,
             tick: 1 + seed % 20,
+            // a late starter: one process is held at its first gates while the others run ahead
+            stalled: if seed % 8 != 0 && seed % 3 == 0 { Some((format!("p{}", (seed / 24) % 2), 8 + ((seed / 48) % 120) as u32)) } else { None },
+            stalls: 0,
         }
     }
 }
@@ -80,9 +87,39 @@ impl Decider for Sched {
             i
         } else {
             let cur = cands.iter().position(|c| c.actor == self.last);
-            match cur {
-                Some(c) if self.run_to_completion => c,
-                Some(c) => {
+            // inside a multi-step publish (clone, fetch, checkout; mkdir, expand): the window other
+            // actors must not look into. The actor that just entered one is often stalled there,
+            // which also releases a late starter.
+            let window = matches!(self.last_kind.as_str(), "dep.cloned" | "dep.fetched" | "resolve.cloned" | "std.mkdir");
+            if let Some(c) = cur
+                && window
+                && !self.run_to_completion
+                && self.stalled.as_ref().map(|s| s.0 != cands[c].actor).unwrap_or(true)
+                && self.rng.chance(2, 3)
+            {
+                self.stalled = Some((cands[c].actor.to_string(), 20 + self.rng.below(200) as u32));
+                self.stalls += 1;
+            }
+            // a stalled actor (slow node) is skipped while others can run
+            let mut forced = None;
+            if let Some((name, left)) = self.stalled.clone() {
+                if left == 0 {
+                    self.stalled = None;
+                } else {
+                    self.stalled = Some((name.clone(), left - 1));
+                    let others: Vec<usize> = (0..cands.len()).filter(|i| cands[*i].actor != name).collect();
+                    if !others.is_empty() && others.len() < cands.len() {
+                        forced = Some(match cur {
+                            Some(c) if others.contains(&c) => c,
+                            _ => others[self.rng.below(others.len())],
+                        });
+                    }
+                }
+            }
+            match (forced, cur) {
+                (Some(j), _) => j,
+                (None, Some(c)) if self.run_to_completion => c,
+                (None, Some(c)) => {
                     // Switch right after an existence check, a truncation, a lock release or
                     // between the files of a multi-file write; otherwise mostly keep going.
                     let hot = matches!(self.last_kind.as_str(), "std.exists" | "std.mkdir" | "unlock" | "lock.got" | "blob.exists" | "dep.enter" | "dep.cloned" | "dep.fetched" | "resolve.cloned")
@@ -94,12 +131,16 @@ impl Decider for Sched {
                         if j >= c {
                             j += 1;
                         }
+                        if hot && self.stalled.is_none() && self.rng.chance(1, 3) {
+                            self.stalled = Some((cands[c].actor.to_string(), 20 + self.rng.below(200) as u32));
+                            self.stalls += 1;
+                        }
                         j
                     } else {
                         c
                     }
                 }
-                None => self.rng.below(cands.len()),
+                (None, None) => self.rng.below(cands.len()),
             }
         };
         if cands[i].actor != self.last {
@@ -109,7 +150,16 @@ impl Decider for Sched {
         self.last = cands[i].actor.to_string();
         i
     }
-    fn verdict(&mut self, _actor: &str, ev: &Event, _seq: usize, _actor_seq: usize) -> Verdict {
+    fn verdict(&mut self, actor: &str, ev: &Event, _seq: usize, _actor_seq: usize) -> Verdict {
+        // dev aid: C30_STALL_AT=<gate kind> stalls whoever passes that gate first
+        if let Ok(k) = std::env::var("C30_STALL_AT")
+            && ev.kind == k
+            && self.stalled.is_none()
+            && self.stalls == 0
+        {
+            self.stalled = Some((actor.to_string(), 100_000));
+            self.stalls += 1;
+        }
         self.last_kind = ev.kind.clone();
         Verdict::Go
     }
@@ -169,6 +219,7 @@ pub struct Outcome {
     pub violation: Option<(String, String)>,
     pub decisions: Vec<usize>,
     pub switches: u64,
+    pub stalls: u64,
     pub blocked: usize,
     pub gates: usize,
     pub interleaving: u64,
@@ -254,10 +305,19 @@ pub fn run(sc: &C30Scenario, cmds_run: &mut u64) -> Result<Outcome, String> {
     if let Some(e) = r.harness_error {
         return Err(e);
     }
+    if std::env::var("C30_DUMP").is_ok() {
+        for t in &r.trace {
+            eprintln!("{} {} {} {:?}", t.actor, t.kind, t.path.rsplit('/').take(3).collect::<Vec<_>>().join("<"), t.verdict);
+        }
+        for p in &r.procs {
+            eprintln!("== {} exit {:?}\n{}", p.name, p.exit, hist::tail(&p.stderr, 800));
+        }
+    }
     let mut outcome = Outcome {
         violation: None,
         decisions: sched.decisions.clone(),
         switches: sched.switches,
+        stalls: sched.stalls,
         blocked: r.blocked.len(),
         gates: r.trace.len(),
         interleaving: simcore::fsutil::hash_u64(r.trace.iter().map(|t| format!("{}:{};", t.actor, t.kind)).collect::<String>().as_bytes()),
@@ -342,6 +402,9 @@ pub fn run(sc: &C30Scenario, cmds_run: &mut u64) -> Result<Outcome, String> {
             hobs.outputs.retain(|k, _| !(k.ends_with(".f") || k.ends_with(".list.rb")));
             robs.outputs.retain(|k, _| !(k.ends_with(".f") || k.ends_with(".list.rb")));
         }
+        if sc.kind == "shared-git-dependency" && robs.exit != Some(0) {
+            return Err(format!("reference build of a git-dependency scenario failed: {}", hist::tail(&rout.stderr, 300)));
+        }
         if let Some((class, detail)) = world::compare(&hobs, &robs, emits) {
             // A divergence explained by the listed C04 finding (it needs no concurrency).
             let whole = hist::Scenario {
@@ -396,7 +459,8 @@ pub fn create_dep_repo(dir: &std::path::Path) -> Result<(), String> {
 }
 
 pub fn dep_repo_dir(sc: &C30Scenario) -> std::path::PathBuf {
-    let key = simcore::fsutil::hash_u64(format!("{:?}{:?}", sc.kind, sc.projects).as_bytes());
+    // independent of the declared dependencies themselves (the URL is derived from this path)
+    let key = simcore::fsutil::hash_u64(format!("{:?}{:?}{}", sc.kind, sc.projects.iter().map(|p| &p.files).collect::<Vec<_>>(), sc.sched_seed).as_bytes());
     std::path::PathBuf::from(std::env::var("VERIF_DEPSIM_SCRATCH").unwrap_or_else(|_| "/tmp/verif-depsim-scratch".to_string())).join(format!("c30-{key:016x}"))
 }
 
@@ -499,7 +563,15 @@ pub fn check(tier: &str) -> i32 {
     println!("procsim C30 tier={tier} VERIF_SEED={seed} schedules={n}");
     let jobs = simcore::pool::workers();
     let results = simcore::pool::par_map(n, jobs, |i| {
-        let sc = gen_scenario(mix(seed, "C30", i as u64));
+        let mut sc = gen_scenario(mix(seed, "C30", i as u64));
+        // dev aid: C30_KIND=<scenario kind> runs only scenarios of that kind
+        if let Ok(k) = std::env::var("C30_KIND") {
+            let mut j = 0u64;
+            while sc.kind != k {
+                j += 1;
+                sc = gen_scenario(mix(seed, "C30", i as u64 * 1000 + j));
+            }
+        }
         let mut cmds = 0;
         let r = run(&sc, &mut cmds);
         (sc, r, cmds)
@@ -519,6 +591,7 @@ pub fn check(tier: &str) -> i32 {
                 probes.inc(&format!("scenario.{}", sc.kind));
                 probes.add("gates", o.gates as u64);
                 probes.add("schedule.switches", o.switches);
+                probes.add("fault.stalled_actor_at_hot_gate", o.stalls);
                 probes.add("lock.blocked_reports", o.blocked as u64);
                 probes.add("observation.torn_info_toml_reads", o.info_torn as u64);
                 probes.add("gates.by_language_server_actors", o.ls_gates as u64);
